@@ -122,7 +122,7 @@ Proof.
     right. destruct (find_node d (snd e)) as [c|]; [|discriminate].
     exists c. split; [reflexivity|now apply Z.ltb_lt].
   - apply if_nil_t in C7. apply if_nil_t in C9. rewrite Z.eqb_eq in C7, C9.
-    apply if_nil_t in Hcn. apply Z.ltb_lt in Hcn.
+    apply if_nil_t in C10. apply Z.ltb_lt in C10. pose proof C10 as Hcn17.
     assert (Hidx : Z.to_nat (lpos rel (a_lvl n) - 1) = (Z.to_nat (lpos rel (a_lvl n)) - 1)%nat) by lia.
     rewrite Hidx in C9. unfold szn, lin.
     destruct (Nat.ltb_spec (Z.to_nat (lpos rel (a_lvl n)) - 1) topl) as [Hlt|Hge].
@@ -131,14 +131,14 @@ Proof.
       rewrite C9 in C7. apply if_nil_f in C.
       destruct (a_full n); [discriminate C|cbn in C7; lia].
   - apply if_nil_t in C7. apply if_nil_t in C9. rewrite Z.eqb_eq in C7, C9.
-    apply if_nil_t in Hcn. apply Z.ltb_lt in Hcn.
+    apply if_nil_t in C10. apply Z.ltb_lt in C10. pose proof C10 as Hcn17.
     assert (Hidx : Z.to_nat (lpos rel (a_lvl n) - 1) = (Z.to_nat (lpos rel (a_lvl n)) - 1)%nat) by lia.
     rewrite Hidx in C9. unfold lin.
     destruct (Nat.ltb_spec (Z.to_nat (lpos rel (a_lvl n)) - 1) topl) as [Hlt|Hge]; [lia|].
     exfalso. unfold topl in Hge. rewrite nth_overflow in C9 by exact Hge.
     rewrite C9 in C7. apply if_nil_f in C.
     destruct (a_full n); [discriminate C|cbn in C7; lia].
-  - apply if_nil_t in Hcn. now apply Z.ltb_lt.
+  - apply if_nil_t in C10. now apply Z.ltb_lt.
   - intros HI. unfold check_ir in Hir. rewrite HI in Hir.
     apply app_eq_nil in Hir. destruct Hir as [H1 _].
     now apply (flat_map_nil _ _ H1).
@@ -644,6 +644,7 @@ Proof.
   destruct (audit_parts d Hmt Haud) as (_ & _ & Hcir & Hroots).
   unfold check_roots in Hroots. pose proof (flat_map_nil _ _ Hroots h Hh) as Hr. cbn beta in Hr.
   apply app_eq_nil in Hr. destruct Hr as [R19 R18]. apply if_nil_t in R19.
+  apply app_eq_nil in R18. destruct R18 as [R18 _].
   assert (Hg : good d h).
   { apply orb_true_iff in R19. destruct R19 as [R|R].
     - left. now apply Z.leb_le.
